@@ -1,5 +1,240 @@
-"""Wrapper level (NiftiWrapper.split / from_sequence with voxel data and affines)."""
+"""Wrapper level: NiftiWrapper.split / NiftiWrapper.from_sequence with labelled voxel data and
+exact (signed permutation x integer zoom) affines.  Oracles for the data / affine / image-match
+clauses of C03, C04, C05, C07 (and input purity for C13)."""
+import json, copy, itertools
+import numpy as np
+from . import core, meta as M, suite_meta as SM
+
+
+def gen_wrapper_case(r, tier, canonical=True, trimmed=True):
+    c = SM.gen_subset_case(r, tier, canonical=canonical, trimmed=trimmed)
+    if c['sd'] is None:
+        c['sd'] = r.choice([0, 1, 2])
+        c2 = SM.gen_subset_case(r, tier, canonical=canonical, trimmed=trimmed)
+        c2['shape'], c2['sd'] = c['shape'], c['sd']
+        # regenerate entries for this geometry
+        S, T, V = M.dims_of(c['shape'], c['sd'])
+        ents = []
+        bases = M.bases_of_shape(c['shape'])
+        for ki in range(r.randint(1, 4)):
+            tab, _ = M.gen_table(r, S, T, V)
+            if M.all_none(tab) and canonical:
+                continue
+            cl = M.classify(r, c['shape'], c['sd'], tab, canonical, bases)
+            if cl is None:
+                continue
+            vals = M.values_for(cl, tab, S, T, V)
+            ents.append(['k%d' % ki, cl, vals[0] if cl == 'gconst' else vals])
+        c['ents'] = ents
+    c['op'] = 'wrapper'
+    c['affine'] = M.rand_affine(r).tolist()
+    if r.random() < 0.25:
+        # oblique (rotation about one axis by an "exact" 3-4-5 angle), predicate comparison only
+        co, si = 0.6, 0.8
+        R = np.eye(4)
+        a, b = r.sample(range(3), 2)
+        R[a, a], R[a, b], R[b, a], R[b, b] = co, -si, si, co
+        c['affine'] = (R @ np.array(c['affine'])).tolist()
+        c['oblique'] = True
+    return c
+
+
+def build_wrapper(case):
+    import nibabel as nb
+    from dcmstack.dcmmeta import NiftiWrapper
+    aff = np.array(case['affine'], dtype=float)
+    ext = SM.build_parent(case, affine=aff)
+    shape = case['shape']
+    data = np.arange(int(np.prod(shape)), dtype=np.int32).reshape(shape)
+    img = nb.Nifti1Image(data, aff)
+    img.header.set_dim_info(slice=case['sd'])
+    img.header.extensions.append(ext)
+    return NiftiWrapper(img), data, aff
+
+
+def snap(w):
+    return (np.asanyarray(w.nii_img.dataobj).tobytes(), w.nii_img.affine.tobytes(),
+            json.dumps(w.meta_ext._content, default=str), tuple(w.nii_img.shape))
+
+
+def img_matches(w, full_affine=True):
+    """C07: recorded shape, slice dim and geometry of the extension equal those of the image"""
+    fails = []
+    e, img = w.meta_ext, w.nii_img
+    try:
+        e.check_valid()
+        e.to_json()
+    except Exception as ex:
+        return ['extension invalid: %s' % ex]
+    if tuple(e.shape) != tuple(img.shape):
+        fails.append('extension shape %s, image shape %s' % (tuple(e.shape), tuple(img.shape)))
+    hsd = img.header.get_dim_info()[2]
+    if e.slice_dim != hsd:
+        fails.append('extension slice_dim %s, header slice dim %s' % (e.slice_dim, hsd))
+    A, B = np.array(e.affine), img.affine
+    if full_affine:
+        if not np.allclose(A, B, atol=1e-4):
+            fails.append('extension affine differs from image affine')
+    else:
+        if not np.allclose(A[:3, :3], B[:3, :3], atol=1e-4):
+            fails.append('extension axis directions / voxel sizes differ from the image')
+    return fails
+
+
+def split_oracles(case, w, data, aff, dim):
+    """returns (pieces, fails_by_property)"""
+    fails = {'C04': [], 'C07': [], 'C13': []}
+    before = snap(w)
+    shape = case['shape']
+    try:
+        pieces = list(w.split(dim))
+    except Exception as e:
+        fails['C04'].append('split(%d) raised %r' % (dim, e))
+        return None, fails
+    if snap(w) != before:
+        fails['C13'].append('split(%d) changed its input' % dim)
+    if len(pieces) != shape[dim]:
+        fails['C04'].append('split(%d) yields %d pieces for an axis of length %d' % (dim, len(pieces), shape[dim]))
+        return pieces, fails
+    for i, p in enumerate(pieces):
+        pd = np.asanyarray(p.nii_img.dataobj)
+        exp = np.take(data, [i], axis=dim)
+        if dim >= 3 and dim == len(shape) - 1:
+            exp = exp[..., 0]
+        while exp.ndim > 3 and exp.shape[-1] == 1 and pd.ndim < exp.ndim:
+            exp = exp[..., 0]
+        if pd.shape != exp.shape or not np.array_equal(pd, exp):
+            fails['C04'].append('piece %d of split(%d): data is not the %d-th hyperplane (shape %s vs %s)' % (i, dim, i, pd.shape, exp.shape))
+            break
+        ea = aff.copy()
+        if dim < 3:
+            ea[:3, 3] = aff[:3, 3] + i * aff[:3, dim]
+        if not np.allclose(p.nii_img.affine, ea, atol=1e-3):
+            fails['C04'].append('piece %d of split(%d): affine does not send voxel 0 to where voxel %d of the parent was' % (i, dim, i))
+            break
+        f7 = img_matches(p, full_affine=False)
+        if f7:
+            fails['C07'].append('piece %d of split(%d): %s' % (i, dim, f7[0]))
+        # metadata through the public lookup
+        pshape = p.nii_img.shape
+        sd = case['sd']
+        try:
+            for k, cl, _ in case['ents']:
+                for idx in itertools.islice(itertools.product(*[range(n) for n in pshape]), 0, 40):
+                    pidx = list(idx) + [0] * (len(shape) - len(idx))
+                    pidx = pidx[:len(shape)]
+                    pidx[dim] = i
+                    a = p.get_meta(k, idx, None)
+                    b = w.get_meta(k, tuple(pidx), None)
+                    if M.cv(a) != M.cv(b):
+                        fails['C04'].append('piece %d of split(%d): get_meta(%s, %s) = %s, parent at %s = %s' % (
+                            i, dim, k, idx, M.cv(a)[:40], tuple(pidx), M.cv(b)[:40]))
+                        raise StopIteration
+        except StopIteration:
+            break
+        except Exception as e:
+            fails['C04'].append('piece %d of split(%d): lookup raised %r' % (i, dim, e))
+            break
+    return pieces, fails
+
+
+def merge_back_oracles(case, w, data, aff, dim, pieces):
+    from dcmstack.dcmmeta import NiftiWrapper
+    fails = {'C05': [], 'C07': [], 'C13': [], 'C03': []}
+    before = [snap(p) for p in pieces]
+    try:
+        back = NiftiWrapper.from_sequence(pieces, dim)
+    except Exception as e:
+        fails['C05'].append('from_sequence(split(%d)) raised %r' % (dim, e))
+        return fails
+    if [snap(p) for p in pieces] != before:
+        fails['C13'].append('from_sequence changed an input image/extension')
+    bd = np.asanyarray(back.nii_img.dataobj)
+    if bd.shape != data.shape or not np.array_equal(bd, data):
+        fails['C05'].append('data after split(%d)+merge differs (shape %s vs %s)' % (dim, bd.shape, data.shape))
+    if not np.allclose(back.nii_img.affine, aff, atol=1e-3):
+        fails['C05'].append('affine after split(%d)+merge differs' % dim)
+    a = M.ext_to_model(back.meta_ext)
+    b = M.ext_to_model(w.meta_ext)
+    if a is None or M.canon_model_ext(a) != M.canon_model_ext(b):
+        fails['C05'].append('extension after split(%d)+merge differs: %s vs %s' % (
+            dim, json.dumps(a)[:200], json.dumps(b)[:200]))
+    fails['C07'] += ['merged: ' + f for f in img_matches(back, full_affine=True)]
+    return fails
+
+
+def refusal_oracles(case, w, data, aff, dim, pieces, r):
+    """C03: inputs whose orientation differs, or whose positions are not strictly increasing along the
+    merge axis, are refused with ValueError"""
+    import nibabel as nb
+    from dcmstack.dcmmeta import NiftiWrapper
+    fails = []
+    if dim >= 3 or len(pieces) < 2:
+        return fails
+    # reversed order: positions decreasing
+    try:
+        NiftiWrapper.from_sequence(list(reversed(pieces)), dim)
+        fails.append('from_sequence accepted pieces in decreasing position order along dim %d' % dim)
+    except ValueError:
+        pass
+    except Exception as e:
+        fails.append('from_sequence on decreasing positions raised %r instead of ValueError' % e)
+    # same position twice
+    try:
+        NiftiWrapper.from_sequence([pieces[0], pieces[0]], dim)
+        fails.append('from_sequence accepted two inputs at the same position')
+    except ValueError:
+        pass
+    except Exception as e:
+        fails.append('from_sequence on equal positions raised %r instead of ValueError' % e)
+    # different orientation on the second input
+    p1 = pieces[1]
+    a2 = p1.nii_img.affine.copy()
+    o = (dim + 1) % 3
+    a2[:3, [o, (dim + 2) % 3]] = a2[:3, [(dim + 2) % 3, o]]
+    d2 = np.asanyarray(p1.nii_img.dataobj)
+    if d2.shape[o] == d2.shape[(dim + 2) % 3]:
+        img2 = nb.Nifti1Image(d2.copy(), a2)
+        img2.header.set_dim_info(slice=p1.nii_img.header.get_dim_info()[2])
+        img2.header.extensions.append(copy.deepcopy(p1.meta_ext))
+        try:
+            NiftiWrapper.from_sequence([pieces[0], NiftiWrapper(img2)], dim)
+            fails.append('from_sequence accepted inputs of different orientation')
+        except ValueError:
+            pass
+        except Exception as e:
+            fails.append('from_sequence on different orientations raised %r instead of ValueError' % e)
+    return fails
 
 
 def extend(rep, pid, tier, r):
-    return
+    if pid not in ('C03', 'C04', 'C05', 'C07', 'C13'):
+        return
+    n = 60 if tier == 'quick' else 1500
+    for ci in range(n):
+        case = gen_wrapper_case(r, tier, canonical=(pid in ('C05',) or r.random() < 0.7))
+        try:
+            w, data, aff = build_wrapper(case)
+        except Exception as e:
+            rep.count('wrapper/build_failed')
+            continue
+        shape = case['shape']
+        for dim in range(len(shape)):
+            rep.evaluations += 1
+            region = 'wrapper:' + SM.subset_region(case, dim) + (':oblique' if case.get('oblique') else '')
+            rep.count(region)
+            rep.nontriv([case, dim])
+            rep.sample({'suite': 'wrapper', 'case': case, 'dim': dim}, cap=2)
+            pieces, fs = split_oracles(case, w, data, aff, dim)
+            fm = {}
+            if pieces is not None and len(pieces) == shape[dim] and shape[dim] >= 2 and \
+                    (dim == case['sd'] or dim >= 3):
+                fm = merge_back_oracles(case, w, data, aff, dim, pieces)
+                if pid == 'C03':
+                    fm.setdefault('C03', [])
+            if pid == 'C03' and pieces is not None:
+                fm.setdefault('C03', [])
+                fm['C03'] += refusal_oracles(case, w, data, aff, dim, pieces, r)
+            allf = list(fs.get(pid, [])) + list(fm.get(pid, []))
+            for f in allf[:1]:
+                rep.failure(f, {'tag': region, 'suite': 'wrapper', 'case': case, 'dim': dim})
